@@ -90,4 +90,11 @@ example : sumPhasor Gen.AC.fromTime Gen.AC.sumBranches Gen.AC.sumX Gen.AC.sumY (
 example : sumPhasor Gen.AC.fromTime Gen.AC.sumBranches Gen.AC.sumX Gen.AC.sumY (1 : ℚ) (3/5) (4/5) (-1) (3/5) (-4/5) = some ⟨0, 8/5⟩ := by
   rw [acchecker_sum_sound]; simp; ext <;> norm_num
 
+/-- non-vacuity of `term_phasor_sound`: 5·sin(ωt + φ), (cos φ, sin φ) = (3/5, 4/5), is 4·cos ωt + 3·sin ωt -/
+example : termSinus "sin" (5 : ℚ) (3/5) (4/5) = some ⟨4, 3⟩ := by
+  simp [termSinus]; constructor <;> norm_num
+
+/-- non-vacuity of `mag_polar`: a rational unit vector -/
+example : ((3 : ℚ) / 5) * (3 / 5) + (4 / 5) * (4 / 5) = 1 := by norm_num
+
 end Lcapy.C14
